@@ -134,6 +134,10 @@ pub struct Engine<W: WorldSpec> {
     pub audit_rot: usize,
     pub heavy_audit: bool,
     pub scan_every: u32,
+    /// bulk operations put only a sample of the handles they issue into the book
+    pub book_skip: bool,
+    /// observed direct-handle maps, keyed by (world, archetype, removals, creations)
+    pub dm_cache: BTreeMap<(usize, usize, u64, u64), BTreeMap<Bits, Bits>>,
     pub state_hashes: BTreeSet<u64>,
     /// distinct (operation in flight, callback index bucket, scheduler choice at that callback)
     pub interleavings: BTreeSet<u64>,
@@ -188,6 +192,8 @@ impl<W: WorldSpec> Engine<W> {
             audit_rot: 0,
             heavy_audit: false,
             scan_every: 4,
+            book_skip: false,
+            dm_cache: BTreeMap::new(),
             state_hashes: BTreeSet::new(),
             interleavings: BTreeSet::new(),
             yields: Vec::new(),
@@ -353,9 +359,8 @@ impl<W: WorldSpec> Engine<W> {
                         if self.cfg.wrapping && am.ver == n.ver {
                             // wrapping_version: the archetype version came round to the value this
                             // ancient handle carries; it may match again (documented), by bits
-                            let map = self.direct_map(wid, ta);
-                            return match map.get(&dbits(d)) {
-                                Some(t) => Exp { acc: Tri::Maybe, target: Some(*t), panic_ok: true, cross_typed },
+                            return match self.direct_lookup(wid, ta, dbits(d)) {
+                                Some(t) => Exp { acc: Tri::Maybe, target: Some(t), panic_ok: true, cross_typed },
                                 None => Exp { acc: Tri::No, target: None, panic_ok: true, cross_typed },
                             };
                         }
@@ -368,9 +373,8 @@ impl<W: WorldSpec> Engine<W> {
                 } else {
                     // foreign / forged direct value: may only be accepted when it is bit-identical
                     // to the direct handle the world currently issues for some live entity
-                    let map = self.direct_map(wid, ta);
-                    match map.get(&dbits(d)) {
-                        Some(t) => Exp { acc: Tri::Maybe, target: Some(*t), panic_ok, cross_typed },
+                    match self.direct_lookup(wid, ta, dbits(d)) {
+                        Some(t) => Exp { acc: Tri::Maybe, target: Some(t), panic_ok, cross_typed },
                         None => Exp { acc: Tri::No, target: None, panic_ok, cross_typed },
                     }
                 }
@@ -379,7 +383,32 @@ impl<W: WorldSpec> Engine<W> {
     }
 
     /// Observed `to_direct(e)` for every live entity of one archetype (direct bits -> entity bits).
+    pub fn direct_lookup(&mut self, wid: usize, ai: usize, db: Bits) -> Option<Bits> {
+        let ck = (wid, ai, self.ms[wid].archs[ai].removals, self.ms[wid].archs[ai].creations);
+        if !self.dm_cache.contains_key(&ck) {
+            let out = self.direct_map_uncached(wid, ai);
+            if self.dm_cache.len() > 8 {
+                self.dm_cache.clear();
+            }
+            self.dm_cache.insert(ck, out);
+        }
+        self.dm_cache[&ck].get(&db).copied()
+    }
+
     pub fn direct_map(&mut self, wid: usize, ai: usize) -> BTreeMap<Bits, Bits> {
+        let ck = (wid, ai, self.ms[wid].archs[ai].removals, self.ms[wid].archs[ai].creations);
+        if let Some(m) = self.dm_cache.get(&ck) {
+            return m.clone();
+        }
+        let out = self.direct_map_uncached(wid, ai);
+        if self.dm_cache.len() > 8 {
+            self.dm_cache.clear();
+        }
+        self.dm_cache.insert(ck, out.clone());
+        out
+    }
+
+    fn direct_map_uncached(&mut self, wid: usize, ai: usize) -> BTreeMap<Bits, Bits> {
         let mut out = BTreeMap::new();
         let w = match self.ws[wid].as_ref() {
             Some(w) => w,
